@@ -86,14 +86,15 @@ PROPS = {
              ["that an INDEPENDENT reader interprets the text as the same position is checked differentially (Spec.Fen.read in the driver), not proved"],
              "Lean 4 theorems over all raw boards and all byte strings; differential on generated positions and strings ties the model to the code",
              "§6 C08"),
-    "C09": P("proof", "INPUT side proved for every valid position and every SAN value / byte string: san_input_sound / moveFromSan_sound (a move "
-             "is returned only if it is well-formed, semilegal and legal and agrees with the piece, destination, origin hints, capture mark "
-             "and promotion written); san_input_unique (the returned move is the only legal move that agrees); san_ambiguity + "
-             "san_simple_resolve / san_short_resolve (two different agreeing legal moves ⇒ Ambiguity naming two of them, never a silent "
-             "choice); search_spec; sanCandidates_spec / sanPawnCapture_spec (candidate generators = exactly the legal candidates, no "
-             "duplicates, no panic); san_make_likes (the SAN make-likes are legal steps)",
-             ["OUTPUT side — the text produced is the standard notation (minimal disambiguation among legal moves, capture mark, promotion suffix, castling, + / #), distinct legal moves get distinct texts, text round trip: differential against Spec.San.write / Spec.San.denotes only, not yet a theorem"],
-             "Lean 4 theorems (input side); differential vs Spec.San.write / Spec.San.denotes (declarative spellings) on generated positions and strings ties the model to the code and covers the output side",
+    "C09": P("proof", "OUTPUT: san_output_standard (for every valid position and legal move the text produced is exactly Spec.San.write — "
+             "piece letter, minimal file/rank/square disambiguation computed among legal moves only, capture mark, promotion suffix, "
+             "castling symbols, + iff check with a legal reply, # iff check with none), san_output_roundtrip (the text parses back, in "
+             "the same position, to the same SAN value and the same move), san_output_injective (distinct legal moves get distinct "
+             "texts). INPUT, for every SAN value / byte string: san_input_sound (a move is returned only if it is legal and agrees "
+             "with piece, destination, origin hints, capture mark and promotion), san_input_unique, san_ambiguity (two different agreeing "
+             "legal moves ⇒ Ambiguity naming two of them, never a silent choice), search_spec, sanCandidates_spec, san_make_likes",
+             ["the figurine (UTF-8) style of the styled list is differential only"],
+             "Lean 4 theorems over all valid positions, legal moves, SAN values and byte strings; differential vs Spec.San.write / Spec.San.denotes ties the model to the code",
              "§6 C09", 0.6, 1.0),
     "C10": P("proof", "uci_move_roundtrip: in every board with Shape (every validated position) each well-formed semilegal move, written "
              "and read back in that position, is recovered with its kind (castling, double step, en passant, each promotion); "
@@ -155,7 +156,7 @@ PROPS = {
              "with N = position's move number − start's + first number, status token), styled_status (status = fmtStatus of the stored outcome)",
              ["'rebuilds an equal chain' holds with the outcome cleared (the text carries no outcome; PartialEq compares it) — stated so",
               "styled_spec assumes the start move number ≤ 65535 (u16 in the code; the model stores a Nat)",
-              "that the SAN styles never fail to print a recorded move is C09: differential"],
+              "SAN style never fails on a recorded (legal) move: C09.san_output_roundtrip; the figurine style is differential only"],
              "Lean 4 theorems by induction over step lists and over the game; differential on generated chain scripts (walk / uci / rebuild / styled, custom numbers up to 2^32) ties the model to the code",
              "§6 C17"),
     "C18": P("proof", "rules level (Lemmas/MirrorSpec): rules_mirror_v / rules_mirror_h — the mirror image of a valid position is valid, "
